@@ -176,16 +176,22 @@ def do_op(qr, op):
 
 
 def ref_handler(spec):
-    """Runs in a pristine forked process: fresh object, one operation."""
+    """Runs in a pristine forked process: fresh object, one operation.  A fresh
+    object that cannot even be built or pre-compiled from in-range settings is
+    reported as such (the aged side then differs), never as a harness failure."""
     _, ctor, segs, pre, op = spec
-    if pre is not None:
-        pctor, psegs, pfit, border_now, box_now = pre
-        qr = build_object(pctor, psegs)
-        qr.make(fit=pfit)
-        qr.border = border_now
-        qr.box_size = box_now
-    else:
-        qr = build_object(ctor, segs)
+    try:
+        if pre is not None:
+            pctor, psegs, pfit, border_now, box_now = pre
+            qr = build_object(pctor, psegs)
+            qr.make(fit=pfit)
+            qr.border = border_now
+            qr.box_size = box_now
+        else:
+            qr = build_object(ctor, segs)
+    except Exception as e:  # noqa
+        return {"exc": ("fresh-object-setup-failed", f"{type(e).__name__}: {e}"),
+                "ret": None, "out": None, "mods": EMPTY, "version_after": None}
     exc, ret, out = do_op(qr, op)
     return {"exc": exc, "ret": ret, "out": out, "mods": pack(qr.modules),
             "version_after": version_after(qr)}
